@@ -64,7 +64,14 @@ SKIP RULES
      every report key of the universe to be in REPORT_KEYS).
  S4  class DeltaResult, TreeResult, ResultDict, DiffLevel and the relationship classes are outside the fragment.
      In TextResult every method is translated; an unknown method, a decorator, another base class or another class
-     attribute is rejected.
+     attribute is rejected.  The module-level names the fragment uses (TextResult, ResultDict, the three constants,
+     RemapDict, dict_, SetOrdered, strings, notpresent, get_type from deepdiff.helper, Mapping from collections.abc;
+     in serialization.py the two functions and get_type) must be bound exactly once, in that way; a store into an
+     attribute / item of TextResult / ResultDict / REPORT_KEYS, a method call or setattr / delattr on them, a `global` naming them or a
+     module-level rebinding of a builtin the fragment calls is rejected.  class ResultDict must be
+     `class ResultDict(RemapDict)` with the single method remove_empty_keys (so self[k], self.update are dict's).
+ S6  a statement `logger.debug / info / warning / error / exception / critical(...)` whose arguments contain no call,
+     walrus, lambda, await or yield is skipped (logging is not part of the modelled state; `logger` must not be a local).
  S5  serialization.py: only _get_pretty_form_text and pretty_print_diff are read; SerializationMixin.pretty (the
      iteration over the tree, the prefix) is not translated.
 """
@@ -121,6 +128,10 @@ MODULE_CONSTS = {"FORCE_DEFAULT": "str", "REPORT_KEYS": "strlist", "CUSTOM_FIELD
 PYCLASSES = {"SetOrdered": "PC_SetOrdered", "dict": "PC_dict", "list": "PC_list", "Mapping": "PC_Mapping"}
 SERIAL_FUNCS = {"_get_pretty_form_text": ([("verbose_level", "nat", "nat")], ("sdict", "sdict")),
                 "pretty_print_diff": ([("diff", "level", "level")], ("pyobj", "obj"))}
+
+
+def indent(lines, n=1):
+    return [("  " * n) + l for l in lines]
 
 
 def tuple_pat(names):
@@ -618,11 +629,10 @@ class Fn:
                     return True
         return False
 
-    def block(self, stmts, outs, ind, loop_top=False):
-        """a statement list -> Gallina expression text whose value is the tuple of `outs`"""
+    def block(self, stmts, outs, loop_top=False):
+        """a statement list -> Gallina lines (relative indentation) of an expression whose value is the tuple of `outs`"""
         lines = []
         deferred = []
-        pad = "  " * ind
         i = 0
         while i < len(stmts):
             s = stmts[i]
@@ -637,25 +647,24 @@ class Fn:
                 if deferred:
                     self.bad(s, "continue after an aliased store")
                 c = self.to_bool(s.test, self.expr(s.test))
-                inner = self.block(rest, outs, ind + 1, loop_top=True)
-                lines.append("%sif %s then self else (\n%s\n%s)" % (pad, c, inner, pad))
-                return "\n".join(lines)
+                inner = self.block(rest, outs, loop_top=True)
+                return lines + ["if %s then self else (" % c] + indent(inner) + [")"]
             if isinstance(s, ast.Assign) and loop_top:
                 d = self.aliased_store(s, rest)
                 if d:
-                    lines.append("%slet %s := %s in" % (pad, d[1], d[3]))
+                    lines.append("let %s := %s in" % (d[1], d[3]))
                     deferred.append(d)
                     i += 1
                     continue
-            lines += [pad + l for l in self.stmt(s, ind)]
+            lines += self.stmt(s)
             i += 1
         for (k, keyvar, name, _keytext) in deferred:
-            lines.append("%slet self := self_setitem self %s %s (ODict %s) in" % (pad, k, keyvar, name))
+            lines.append("let self := self_setitem self %s %s (ODict %s) in" % (k, keyvar, name))
         for o in outs:
             if o not in self.env and o != "self":
                 self.bad(stmts[0] if stmts else None, "local %s is not bound on every path" % o)
-        lines.append(pad + tuple_val(outs))
-        return "\n".join(lines)
+        lines.append(tuple_val(outs))
+        return lines
 
     def aliased_store(self, s, rest):
         """E2: self[K][x] = d with d a dict local mutated later in the same loop body"""
@@ -682,7 +691,7 @@ class Fn:
         self.stored.add(name)
         return (k, keyvar, name, self.to_obj(tg, key))
 
-    def stmt(self, s, ind):
+    def stmt(self, s):
         if isinstance(s, ast.Assign):
             if len(s.targets) != 1:
                 self.bad(s, "multiple assignment targets")
@@ -733,6 +742,14 @@ class Fn:
             f = c.func
             if not isinstance(f, ast.Attribute):
                 self.bad(s, "call statement of a plain function")
+            # S6: logger.<level>(...) with call-free arguments
+            if (isinstance(f.value, ast.Name) and f.value.id == "logger" and "logger" not in self.env
+                    and f.attr in ("debug", "info", "warning", "error", "exception", "critical")):
+                for a in list(c.args) + [k.value for k in c.keywords]:
+                    for n in ast.walk(a):
+                        if isinstance(n, (ast.Call, ast.NamedExpr, ast.Await, ast.Yield, ast.YieldFrom, ast.Lambda)):
+                            self.bad(s, "logging call with an argument that is not call-free")
+                return []
             # self._from_tree_X(tree, ...)
             if self.is_self(f.value) and f.attr in SIGS and f.attr not in RETURNS:
                 args = self.call_args(c, f.attr, SIGS[f.attr])
@@ -773,12 +790,12 @@ class Fn:
         if isinstance(s, ast.Raise):
             return ["let self := self_raise self in"]
         if isinstance(s, ast.If):
-            return self.if_stmt(s, ind)
+            return self.if_stmt(s)
         if isinstance(s, ast.For):
-            return self.for_stmt(s, ind)
+            return self.for_stmt(s)
         self.bad(s, "unsupported statement")
 
-    def if_stmt(self, s, ind):
+    def if_stmt(self, s):
         # S2
         tst = s.test
         if (self.name == "_from_tree_type_changes" and isinstance(tst, ast.Compare) and len(tst.ops) == 1 and isinstance(tst.ops[0], ast.Is)
@@ -800,7 +817,7 @@ class Fn:
                 self.bad(s, "the branches of the class-object test assign different locals")
             out = []
             for b in s.orelse:
-                out += self.stmt(b, ind)
+                out += self.stmt(b)
             return out
         env0 = dict(self.env)
         a1, a2 = self.assigned(s.body, env0), self.assigned(s.orelse, env0)
@@ -813,10 +830,10 @@ class Fn:
                 pass
         c = self.to_bool(s.test, self.expr(s.test))
         self.env = dict(env0)
-        b1 = self.block(s.body, outs, ind + 1)
+        b1 = self.block(s.body, outs)
         env1 = self.env
         self.env = dict(env0)
-        b2 = self.block(s.orelse, outs, ind + 1)
+        b2 = self.block(s.orelse, outs)
         env2 = self.env
         self.env = dict(env0)
         for v in outs:
@@ -826,9 +843,9 @@ class Fn:
             if t1 != t2:
                 self.bad(s, "local %s has different kinds in the two branches (%s, %s)" % (v, t1, t2))
             self.env[v] = t1
-        return ["let %s :=" % tuple_pat(outs), "  if %s then (" % c, b1, "  ) else (", b2, "  ) in"]
+        return ["let %s :=" % tuple_pat(outs), "  if %s then (" % c] + indent(b1, 2) + ["  ) else ("] + indent(b2, 2) + ["  ) in"]
 
-    def for_stmt(self, s, ind):
+    def for_stmt(self, s):
         if s.orelse:
             self.bad(s, "for ... else")
         it = s.iter
@@ -846,10 +863,10 @@ class Fn:
         if inner_assigned:
             self.bad(s, "loop body rebinds the outer local(s) %s" % ", ".join(inner_assigned))
         self.env[var] = "level"
-        body = self.block(s.body, ["self"], ind + 1, loop_top=True)
+        body = self.block(s.body, ["self"], loop_top=True)
         self.env = env0
-        return ["let self := fold_left (fun (self : gself) (%s : level) =>" % var, body,
-                ") (tree_get %s %s) self in" % (it.value.id, k[0])]
+        return (["let self := fold_left (fun (self : gself) (%s : level) =>" % var] + indent(body, 2)
+                + ["  ) (tree_get %s %s) self in" % (it.value.id, k[0])])
 
 
 # ---- top level -------------------------------------------------------------------------------------------------
@@ -905,12 +922,106 @@ def coq_default(v):
     return None
 
 
+def bound_names(node):
+    """names a module-level statement binds (targets, def / class names, import names)"""
+    out = []
+    if isinstance(node, (ast.FunctionDef, ast.AsyncFunctionDef, ast.ClassDef)):
+        out.append(node.name)
+    elif isinstance(node, (ast.Import, ast.ImportFrom)):
+        for a in node.names:
+            out.append((a.asname or a.name).split(".")[0])
+    elif isinstance(node, (ast.Assign, ast.AugAssign, ast.AnnAssign, ast.Delete, ast.For, ast.With, ast.If, ast.Try, ast.While)):
+        for n in ast.walk(node):
+            if isinstance(n, ast.Name) and isinstance(n.ctx, (ast.Store, ast.Del)):
+                out.append(n.id)
+            if isinstance(n, (ast.Import, ast.ImportFrom)):
+                for a in n.names:
+                    out.append((a.asname or a.name).split(".")[0])
+            if isinstance(n, (ast.FunctionDef, ast.ClassDef)):
+                out.append(n.name)
+    return out
+
+
+def check_module_bindings(t, tree, expected, protected):
+    """S4: every name in `expected` (name -> how it must be bound) is bound exactly once at module level and in the expected
+    way; no statement of the module stores into an attribute / item of a `protected` name, names it in a `global`
+    statement or passes it to setattr / delattr"""
+    count = {}
+    for node in tree.body:
+        for nm in bound_names(node):
+            if nm in expected:
+                count.setdefault(nm, []).append(node)
+    for nm, how in expected.items():
+        nodes = count.get(nm, [])
+        if len(nodes) != 1:
+            t.bad(nodes[1] if len(nodes) > 1 else None, "%s is bound %d times at module level" % (nm, len(nodes)))
+        node = nodes[0]
+        if how[0] == "from":
+            if not (isinstance(node, ast.ImportFrom) and node.module == how[1] and node.level == 0
+                    and any(a.name == nm and a.asname is None for a in node.names)):
+                t.bad(node, "%s is not imported by `from %s import %s`" % (nm, how[1], nm))
+        elif how[0] == "class":
+            if not isinstance(node, ast.ClassDef):
+                t.bad(node, "%s is not a class definition" % nm)
+        elif how[0] == "def":
+            if not isinstance(node, ast.FunctionDef):
+                t.bad(node, "%s is not a function definition" % nm)
+        elif how[0] == "assign":
+            if not (isinstance(node, ast.Assign) and len(node.targets) == 1 and isinstance(node.targets[0], ast.Name)):
+                t.bad(node, "%s is not bound by a plain assignment" % nm)
+    for n in ast.walk(tree):
+        if isinstance(n, (ast.Global, ast.Nonlocal)) and any(x in expected for x in n.names):
+            t.bad(n, "global / nonlocal statement naming a name of the fragment")
+        if isinstance(n, (ast.Attribute, ast.Subscript)) and isinstance(n.ctx, (ast.Store, ast.Del)):
+            base = n.value
+            while isinstance(base, (ast.Attribute, ast.Subscript)):
+                base = base.value
+            if isinstance(base, ast.Name) and base.id in protected:
+                t.bad(n, "store into an attribute / item of %s" % base.id)
+        if isinstance(n, ast.Call) and isinstance(n.func, ast.Attribute):
+            base = n.func.value
+            while isinstance(base, (ast.Attribute, ast.Subscript)):
+                base = base.value
+            if isinstance(base, ast.Name) and base.id in protected:
+                t.bad(n, "method call on %s" % base.id)
+        if isinstance(n, ast.Call) and isinstance(n.func, ast.Name) and n.func.id in ("setattr", "delattr") and n.args:
+            a = n.args[0]
+            while isinstance(a, (ast.Attribute, ast.Subscript)):
+                a = a.value
+            if isinstance(a, ast.Name) and a.id in protected:
+                t.bad(n, "%s on %s" % (n.func.id, a.id))
+
+
+MODEL_BINDINGS = {"TextResult": ("class",), "ResultDict": ("class",), "FORCE_DEFAULT": ("assign",), "REPORT_KEYS": ("assign",), "CUSTOM_FIELD": ("assign",),
+                  "RemapDict": ("from", "deepdiff.helper"), "dict_": ("from", "deepdiff.helper"), "SetOrdered": ("from", "deepdiff.helper"),
+                  "strings": ("from", "deepdiff.helper"), "notpresent": ("from", "deepdiff.helper"), "get_type": ("from", "deepdiff.helper"),
+                  "Mapping": ("from", "collections.abc")}
+SERIAL_BINDINGS = {"_get_pretty_form_text": ("def",), "pretty_print_diff": ("def",), "get_type": ("from", "deepdiff.helper")}
+BUILTINS_USED = ("isinstance", "type", "str", "set", "dict", "list", "TypeError")
+
+
 def translate_model(repo):
     t = T(MODEL)
     tree = read(repo, MODEL)
+    check_module_bindings(t, tree, MODEL_BINDINGS, {"TextResult", "ResultDict", "REPORT_KEYS"})
+    for node in tree.body:
+        for nm in bound_names(node):
+            if nm in BUILTINS_USED:
+                t.bad(node, "the builtin %s is rebound at module level" % nm)
     out = []
     consts = {}
     cls = None
+    for node in tree.body:
+        if isinstance(node, ast.ClassDef) and node.name == "ResultDict":
+            # the base class of TextResult: a plain dict (RemapDict = dict_ = dict) plus remove_empty_keys, which is outside the fragment
+            ok = (not node.decorator_list and not node.keywords and len(node.bases) == 1 and isinstance(node.bases[0], ast.Name) and node.bases[0].id == "RemapDict")
+            for b in node.body:
+                if isinstance(b, ast.Expr) and isinstance(b.value, ast.Constant):
+                    continue
+                if not (isinstance(b, ast.FunctionDef) and b.name == "remove_empty_keys" and not b.decorator_list):
+                    ok = False
+            if not ok:
+                t.bad(node, "class ResultDict is not `class ResultDict(RemapDict)` with the single method remove_empty_keys")
     for node in tree.body:
         if isinstance(node, ast.Assign) and len(node.targets) == 1 and isinstance(node.targets[0], ast.Name) and node.targets[0].id in MODULE_CONSTS:
             nm = node.targets[0].id
@@ -1010,18 +1121,19 @@ def translate_model(repo):
             continue
         if nm == "__init__":
             # the object starts empty: self_new
-            body = F.block(fn.body, ["self"], 1)
+            body = "\n".join(indent(F.block(fn.body, ["self"])))
             out.append("Definition g_%s%s : gself :=\n  let self := self_new in\n%s." % (nm, params, body))
             continue
         if nm == "_from_tree_results":
             for s in fn.body:
-                if isinstance(s, ast.Expr) and isinstance(s.value, ast.Call) and isinstance(s.value.func, ast.Attribute):
+                if (isinstance(s, ast.Expr) and isinstance(s.value, ast.Call) and isinstance(s.value.func, ast.Attribute)
+                        and isinstance(s.value.func.value, ast.Name) and s.value.func.value.id == "self"):
                     c = s.value
                     label = c.func.attr[len("_from_tree_"):] if c.func.attr.startswith("_from_tree_") else c.func.attr
                     if c.func.attr == "_from_tree_default" and len(c.args) >= 2 and isinstance(c.args[1], ast.Constant):
                         label = "default:%s" % c.args[1].value
                     calls_in_results.append(label)
-        body = F.block(fn.body, ["self"], 1)
+        body = "\n".join(indent(F.block(fn.body, ["self"])))
         out.append("Definition g_%s (self : gself)%s : gself :=\n%s." % (nm, params, body))
     out.append("Definition g_category_order : list string :=\n  [%s]." % "; ".join(coq_string(x) for x in calls_in_results))
     return out
@@ -1076,6 +1188,11 @@ def custom_results(F, fn):
 def translate_serial(repo):
     t = T(SERIAL)
     tree = read(repo, SERIAL)
+    check_module_bindings(t, tree, SERIAL_BINDINGS, set(SERIAL_BINDINGS))
+    for node in tree.body:
+        for nm in bound_names(node):
+            if nm in ("str",):
+                t.bad(node, "the builtin %s is rebound at module level" % nm)
     fns = {}
     for node in tree.body:
         if isinstance(node, ast.FunctionDef) and node.name in SERIAL_FUNCS:
@@ -1107,7 +1224,7 @@ def translate_serial(repo):
                 continue
             if isinstance(s, (ast.For, ast.Raise)):
                 t.bad(s, "%s: loop / raise" % nm)
-            lines += ["  " + l for l in F.stmt(s, 1)]
+            lines += indent(F.stmt(s))
         x = F.expr(stmts[-1].value)
         if x[1] != ret[1]:
             if ret[1] == "obj":
